@@ -239,4 +239,36 @@ example : (match saveItems exMd with
         | .error _ => false)
     | .error _ => false) = true := by decide
 
+/-- C16 for Arrays: the Array read from a file is again in the domain of the round-trip theorem, so saving it and reading
+    it a second time succeeds and gives the same data token, shape, units, stack flag, labels, dim units and dim names,
+    and per axis the same dim vector (verbatim, or elementwise numpy-equal where the second save compressed it again) —
+    generation 2 equals generation 1, for every arithmetic.  (`hplain2`: the dim vectors read in generation 1 are numpy
+    arrays; for the float / int arithmetic of the code this is how `_unpack_dim` builds them.) -/
+theorem C16_array_generations (ops : NumOps) (a : ArrayVal) (hinv : LenInv a) (hdim : ∀ n, n < a.rank → DimOK a n)
+    (hplain : PlainDims ops a)
+    (hstack : a.isStack = true → a.dataShape ≠ [] ∧ a.labels.length = a.depth)
+    (hnostack_labels : a.isStack = false → a.labels = [])
+    (hnolabel : a.isStack = false → ∀ n, n + 1 = a.rank → a.dimNames.getD n "" ≠ "_labels_")
+    (hplain2 : ∀ b, ArrayVal.fromBody ops a.dataShape (a.toBody ops) = .ok b → PlainDims ops b) :
+    ∃ b c, ArrayVal.fromBody ops a.dataShape (a.toBody ops) = .ok b ∧
+      ArrayVal.fromBody ops b.dataShape (b.toBody ops) = .ok c ∧
+      c.dataTok = b.dataTok ∧ c.dataShape = b.dataShape ∧ c.units = b.units ∧ c.isStack = b.isStack ∧
+      c.labels = b.labels ∧ c.dimUnits = b.dimUnits ∧ c.dimNames = b.dimNames ∧
+      ∀ n, n < b.rank → (c.dims.getD n [] = b.dims.getD n [] ∨ vecEq ops (b.dims.getD n []) (c.dims.getD n []) = true) := by
+  obtain ⟨b, hb, b1, b2, b3, b4, b5, b6, b7, _⟩ := C02_roundtrip ops a hinv hdim hplain hstack hnostack_labels hnolabel
+  obtain ⟨hbinv, hbdim⟩ := C02_readback_calibrated ops a.dataShape (a.toBody ops) b hb
+  have hbrank : b.rank = a.rank := by simp only [ArrayVal.rank, ArrayVal.shape, b2, b4]
+  have hbdepth : b.depth = a.depth := by simp only [ArrayVal.depth, b2, b4]
+  obtain ⟨c, hc, c1, c2, c3, c4, c5, c6, c7, c8⟩ := C02_roundtrip ops b hbinv hbdim (hplain2 b hb)
+    (fun hs => by
+      rw [b4] at hs
+      obtain ⟨h1, h2⟩ := hstack hs
+      exact ⟨by rw [b2]; exact h1, by rw [b5, hbdepth]; exact h2⟩)
+    (fun hs => by rw [b4] at hs; rw [b5]; exact hnostack_labels hs)
+    (fun hs n hn => by
+      rw [b4] at hs
+      rw [b7]
+      exact hnolabel hs n (by rw [← hbrank]; exact hn))
+  exact ⟨b, c, hb, hc, c1, c2, c3, c4, c5, c6, c7, c8⟩
+
 end EmdProps
